@@ -118,8 +118,8 @@ Definition tmpl_preprocess : list tnode :=
      TField "" "Position.Y";
      TText (" ");
      TField "" "ExternalConstraint";
-     TText (" | ");
-     TField "" "DegreesOfFreedomNum"];
+     TIf "" "HasDegreesOfFreedomNum" [TText (" | ");
+       TField "" "DegreesOfFreedomNum"] []];
    TText ("" ++ nl ++ "" ++ nl ++ "|materials|");
    TRange "" "" "" "GetMaterialsByName"
      [TText ("" ++ nl ++ "'");
